@@ -29,16 +29,24 @@ Decidable(x, o, cs2, cs3) ==
                    /\ \A cs \in {ObsComp(o), cs2, cs3} : IsRepR(x[1], cs) /\ IsRepR(x[2], cs)
 ElemMatches(e, x, o) == /\ e.has /\ e.re = x[1]
                         /\ IF o.kind = "c" THEN e.im = x[2] ELSE x[2] = RZero
-ConvElemOK(e, vc, k, o, d, real) ==
-  IF ~real /\ IsSmall(vc) /\ Decidable(ConvExact(vc, k), o, Comp(d), Comp(d)) THEN ElemMatches(e, ConvExact(vc, k), o) ELSE (e.mR \/ e.mW)
-ConvRec(o, vcs, k, d, real) ==
+\* with an offset the scaled product and the shift must be normal numbers of the types too: then no reading of
+\* "rounded to that float type" (once at the end, or product and difference each) can differ from the exact value
+ConvDecidable(vc, k, sh, o, d) ==
+  /\ Decidable(ConvExactS(vc, k, sh), o, Comp(d), Comp(d))
+  /\ (sh # RZero => (Decidable(ConvExact(vc, k), o, Comp(d), Comp(d)) /\ Decidable(<<sh, RZero>>, o, Comp(d), Comp(d))))
+\* flags: mR / mW exact value rounded once to the result type / to Want(d); mP (offset units only) scaled product
+\* rounded to the float type, shift subtracted in that type; mX (identity conversions only) observed = input exactly
+ConvElemOK(e, vc, c, o) ==
+  IF ~c.real /\ IsSmall(vc) /\ ConvDecidable(vc, c.k, c.sh, o, c.d) THEN ElemMatches(e, ConvExactS(vc, c.k, c.sh), o)
+  ELSE (e.mR \/ e.mW \/ e.mP \/ (c.ident /\ e.mX))
+ConvRec(o, c) ==
   IF o.raise THEN Raise
-  ELSE Ret(o.kind, o.size, o.py, o.warnR, \A j \in DOMAIN vcs : ConvElemOK(o.els[j], vcs[j], k, o, d, real))
+  ELSE Ret(o.kind, o.size, o.py, o.warnR, \A j \in DOMAIN c.vcs : ConvElemOK(o.els[j], c.vcs[j], c, o))
 \* the harness' flags and TLC's own arithmetic must agree wherever both apply (else the oracle is broken)
-ConvOracleOK(o, vcs, k, d) ==
-  o.raise \/ \A j \in DOMAIN vcs :
-     (IsSmall(vcs[j]) /\ Decidable(ConvExact(vcs[j], k), o, Comp(d), Comp(d))) =>
-        (ElemMatches(o.els[j], ConvExact(vcs[j], k), o) <=> o.els[j].mR)
+ConvOracleOK(o, c) ==
+  o.raise \/ \A j \in DOMAIN c.vcs :
+     (IsSmall(c.vcs[j]) /\ ConvDecidable(c.vcs[j], c.k, c.sh, o, c.d)) =>
+        (ElemMatches(o.els[j], ConvExactS(c.vcs[j], c.k, c.sh), o) <=> o.els[j].mR)
 
 \* the type NumPy evaluates in when operand 1 is converted as the statement demands
 MidComp(d0, d1, out) == LET d0e == IF out = "inplace" /\ IsInt(d0) THEN "f" \o SizeStr(d0) ELSE d0 IN
@@ -79,15 +87,15 @@ TFail(n, route, m, o, r) ==
                  observed |-> IF o.raise THEN Shown(Raise) ELSE Shown([r EXCEPT !.warn = o.warnU])]))
 
 ReportConv(n, c, o) ==
-  LET rc == ConvRec(o.c, c.vcs, c.k, c.d, c.real)
-      ri == ConvRec(o.i, c.vcs, c.k, c.d, c.real)
+  LET rc == ConvRec(o.c, c)
+      ri == ConvRec(o.i, c)
       same == \A j \in DOMAIN o.same : o.same[j] IN
-  /\ \A cl \in ConvFails(c.route, c.d, c.vcs, rc) : PFail(n, c, c.route, cl)
-  /\ \A cl \in ConvFails(c.twin, c.d, c.vcs, ri) : PFail(n, c, c.twin, cl)
+  /\ \A cl \in ConvFailsI(c.route, c.d, c.vcs, rc, c.ident) : PFail(n, c, c.route, cl)
+  /\ \A cl \in ConvFailsI(c.twin, c.d, c.vcs, ri, c.ident) : PFail(n, c, c.twin, cl)
   /\ (~C17c(rc, ri, same) => PFail(n, c, c.route, "C17c"))
   /\ (~TConv(c.mc, o.c, rc) => TFail(n, c.route, c.mc, o.c, rc))
   /\ (~TConv(c.mi, o.i, ri) => TFail(n, c.twin, c.mi, o.i, ri))
-  /\ (~(c.real \/ (ConvOracleOK(o.c, c.vcs, c.k, c.d) /\ ConvOracleOK(o.i, c.vcs, c.k, c.d))) => PrintT(ToJson([tag |-> "ORACLE", i |-> n])))
+  /\ (~(c.real \/ (ConvOracleOK(o.c, c) /\ ConvOracleOK(o.i, c))) => PrintT(ToJson([tag |-> "ORACLE", i |-> n])))
 ReportUfunc(n, c, o) ==
   LET r == URec(o, c.op, c.els, c.k, c) IN
   /\ \A cl \in UfuncFails(c.op, c.d0, c.d1, c.out, r) : PFail(n, c, c.op, cl)
